@@ -166,3 +166,16 @@ func connShutdownHelper(run *ssa.Function) *ssa.Call {
 	}
 	return nil
 }
+
+// uniqFns removes duplicates, keeping the first occurrence.
+func uniqFns(fs []*ssa.Function) []*ssa.Function {
+	seen := map[*ssa.Function]bool{}
+	var out []*ssa.Function
+	for _, f := range fs {
+		if !seen[f] {
+			seen[f] = true
+			out = append(out, f)
+		}
+	}
+	return out
+}
